@@ -100,6 +100,7 @@ func run(w *ev.W) {
 			}
 			input(env, cell, ent, f, t, b)
 		}
+		serializers(env, cell, ent, f, d, t)
 		for vi, v := range env.P.Deviations(f, d, k) {
 			held := v
 			if !env.P.Valid(f, t, v) {
@@ -119,6 +120,88 @@ func run(w *ev.W) {
 			}
 		}
 	})
+}
+
+// serializers: for every Go value of the type (every value with <=1 deviating
+// field; schema-violating ones: each pointer/container field set to nil, unions with
+// no and with two members) the value-based and the streaming serializer either both
+// fail or both produce encodings that the spec decoder reads as equal values.
+func serializers(env *cellutil.Env, cell cells.Cell, ent reg.Entry, f *schema.File, d *schema.Def, t *schema.Type) {
+	w := env.W
+	vals := env.P.Deviations(f, d, 1)
+	if d.Kind == "union" {
+		vals = append(vals, schema.Rec(nil))
+		if len(d.Fields) >= 2 {
+			a, b := env.P.D(f, d.Fields[0].Type), env.P.D(f, d.Fields[1].Type)
+			if len(a) > 0 && len(b) > 0 {
+				vals = append(vals, schema.Rec(map[string]*schema.Val{d.Fields[0].Name: a[0], d.Fields[1].Name: b[0]}))
+			}
+		}
+	}
+	compare := func(rv reflect.Value, what string) {
+		x, ok := rv.Interface().(cellutil.Codec)
+		if !ok {
+			return
+		}
+		w.Count("serializer_pairs", 1)
+		b1, e1 := cellutil.EncodeValue(x)
+		b2, e2 := cellutil.EncodeStream(x)
+		rep := map[string]string{"cell": cell.Pkg + "." + cell.Def, "value": what}
+		for _, e := range []error{e1, e2} {
+			if cellutil.IsPanic(e) {
+				w.Violation("panic-serializer:"+cell.Kind, fmt.Sprintf("%s.%s %s: %v", cell.Pkg, cell.Def, what, e), rep)
+				return
+			}
+		}
+		if (e1 == nil) != (e2 == nil) {
+			w.Violation("serializers-disagree-on-failure:"+cell.Kind, fmt.Sprintf("%s.%s %s: ToWire+Encode gives err=%v, Encode(stream) gives err=%v", cell.Pkg, cell.Def, what, e1, e2), rep)
+			return
+		}
+		if e1 != nil {
+			w.Outcome("serializers-both-fail")
+			return
+		}
+		v1, n1, d1 := tbin.Decode(tbin.Struct, b1)
+		v2, n2, d2 := tbin.Decode(tbin.Struct, b2)
+		if d1 != nil || d2 != nil || n1 != len(b1) || n2 != len(b2) {
+			w.Violation("serializer-malformed:"+cell.Kind, fmt.Sprintf("%s.%s %s: outputs %x / %x are not both well-formed structs (%v, %v)", cell.Pkg, cell.Def, what, b1, b2, d1, d2), rep)
+			return
+		}
+		l1, ok1 := env.P.FromWire(f, t, v1)
+		l2, ok2 := env.P.FromWire(f, t, v2)
+		if !ok1 || !ok2 || env.P.Key(f, t, l1) != env.P.Key(f, t, l2) {
+			w.Violation("serializers-disagree:"+cell.Kind, fmt.Sprintf("%s.%s %s: ToWire+Encode wrote %s, Encode(stream) wrote %s", cell.Pkg, cell.Def, what, v1.Key(), v2.Key()), rep)
+			return
+		}
+		w.Outcome("serializers-agree")
+	}
+	for _, v := range vals {
+		rv, err := env.Conv.FromLogical(f, t, v, reflect.PtrTo(ent.Type))
+		if err != nil {
+			continue // shape problems are C01's to report
+		}
+		key := env.P.Key(f, t, v)
+		compare(rv, key)
+		// each nillable field set to nil in turn (unset pointer, nil slice, nil map)
+		for i := 0; i < ent.Type.NumField(); i++ {
+			sf := rv.Elem().Field(i)
+			switch sf.Kind() {
+			case reflect.Ptr, reflect.Slice, reflect.Map:
+			default:
+				continue
+			}
+			if sf.IsNil() || !sf.CanSet() {
+				continue
+			}
+			if sf.Kind() != reflect.Ptr && sf.Len() > 0 {
+				continue // only empty containers become nil containers
+			}
+			nv := reflect.New(ent.Type)
+			nv.Elem().Set(rv.Elem())
+			nv.Elem().Field(i).Set(reflect.Zero(sf.Type()))
+			compare(nv, key+" with "+ent.Type.Field(i).Name+"=nil")
+		}
+	}
 }
 
 func input(env *cellutil.Env, cell cells.Cell, ent reg.Entry, f *schema.File, t *schema.Type, b []byte) {
